@@ -17,4 +17,12 @@ def get_units():
             for n in (0, 1, 2, 3):
                 u = Unit('%s/broadcast.%s.%dunits' % (PROP, fe, n), S.serve_broadcast(fe, PROP, n), [PROP], functions=S.FUNCS[fe])
                 us.append(u)
+    # "every accepted request": a well-formed request frame of any function code and any body length - none at all included - that
+    # arrives at the framer of a serving loop is handed to execute() exactly once (the serve lemmas above start there)
+    from . import C06, framers as F
+    for kind in ('socket', 'rtu', 'ascii', 'binary'):
+        fns = [F.QUAL[kind] + '.' + m for m in ('processIncomingPacket', 'checkFrame', 'isFrameReady', 'advanceFrame', 'getFrame')]
+        us.append(Unit('%s/accepted.%s' % (PROP, kind), C06.step(kind, alone=True), [PROP], contracts=C06.CS, unroll={(F.QUAL[kind] + '.processIncomingPacket', 0): 2},
+                       functions=fns, twin=C06.twin_inputs(kind)))
+        us[-1].unwind = True
     return us
